@@ -180,7 +180,7 @@ func ruleAPIForms(c *Ctx) []Obligation {
 	o := c.newObs("P-API-FORMS")
 	sm := methodsOf(c, "Statement")
 	gm := methodsOf(c, "Group")
-	newStmt := c.jenFunc("newStatement")
+	newStmt := c.role("newStatement")
 	var names []string
 	for n := range sm {
 		if !nonConstructs[n] {
